@@ -199,7 +199,7 @@ def replay(case, rec):
 
 def run(rec, rng, tier, shard, nshards):
     R.check_atoms()
-    n = 1200 if tier == 'quick' else 15000
+    n = 3000 if tier == 'quick' else 25000
     for i in range(n):
         case = gen_case(rng)
         try:
